@@ -9,5 +9,6 @@ CONSTANTS
 INVARIANT TypeOK
 INVARIANT RefPartial
 INVARIANT ImplAgrees
+INVARIANT StepsAreImplCall
 INVARIANT PublishReplay
 CHECK_DEADLOCK FALSE
